@@ -25,6 +25,12 @@ def hvk_val(g):
   return z3.If(sig_vk(g) >= 0, VBool(z3.BoolVal(True)), VNone)
 
 
+def _defaults_exist(h, g):
+  i = z3.Int('de_i')
+  return z3.ForAll([i], z3.Implies(is_VRef(sig_dflt(g, i)), ref(sig_dflt(g, i)) < h.alloc),
+                   patterns=[sig_dflt(g, i)])
+
+
 def SigInfoInv(h, sv):
   """`sv` is a SignatureInfo whose derived fields agree with its (well-formed) signature."""
   s = ref(sv)
@@ -34,7 +40,9 @@ def SigInfoInv(h, sv):
       isref(h, h.fld(s, 'signature'), 'Signature'),
       WF(g),
       h.fld(s, '_var_positional_start') == vps_val(g),
-      h.fld(s, 'has_var_keyword') == hvk_val(g))
+      h.fld(s, 'has_var_keyword') == hvk_val(g),
+      # default values are existing objects (closed heap)
+      _defaults_exist(h, g))
 
 
 def StoreInv(h, g, dv):
